@@ -62,6 +62,8 @@ type shim struct {
 	// trace (kind "extstmt"): name of a mapped pseudo-field; before the call, the tuple of the call's arguments
 	// (receiver first) is appended to it — a record of what the callee was handed
 	trace string
+	// vari (kind "fun"): the callee's variadic parameter, 1-based; the call's arguments from there on are collected into ONE slice
+	vari int
 }
 
 type fieldSpec struct {
@@ -96,6 +98,9 @@ type transFunc struct {
 	// `append` to a slice field of the receiver (or of a struct copy of it) is REFUSED: in Go it may write into a backing
 	// array shared with other objects, which value slices cannot express; such code must use the clone idiom (make + copy)
 	noFieldAppend bool
+	// concrete static types that implement a nil-able interface type ("ptr:struct:IoCore" → "opt:Core"): where such a value
+	// is returned / assigned as the interface it becomes the non-nil interface value [v]
+	implements map[string]string
 }
 
 // tailSpec: from the first top-level statement whose source text is `from` on, the body is replaced by
@@ -781,6 +786,13 @@ func (x *xl) expr(e ast.Expr) tx {
 			if cl, ok := t.X.(*ast.CompositeLit); ok {
 				key := "&" + exprString(cl.Type)
 				sh, has := x.fn.calls[key]
+				if !has {
+					// &T{…} of a struct the entry declares: the record itself, as a non-nil pointer value
+					if typ, ok := x.tryType(cl.Type); ok && strings.HasPrefix(typ, "struct:") {
+						v := x.expr(cl)
+						return tx{lean: v.lean, typ: "ptr:" + typ}
+					}
+				}
 				if !has || sh.kind != "ext" || len(sh.res) != 1 {
 					x.fail(e, "%s{…} needs a shim %q of kind ext", key, key)
 				}
@@ -940,7 +952,16 @@ func (x *xl) expr(e ast.Expr) tx {
 		return tx{lean: "(.call \"tuple\" [" + strings.Join(parts, ", ") + "])", typ: typ}
 	case *ast.SliceExpr:
 		if t.Slice3 {
-			x.fail(e, "3-index slice is outside the subset")
+			// the full-capacity idiom x[:len(x):len(x)] — the VALUE x with no spare capacity, so that an append to it cannot write
+			// into x's backing array — is the only 3-index slice in the subset (value slices have no capacity)
+			if !isCappedSlice(t) {
+				x.fail(e, "3-index slice is in the subset only as x[:len(x):len(x)]")
+			}
+			a := x.expr(t.X)
+			if !(a.typ == "bytes" || strings.HasPrefix(a.typ, "[]")) {
+				x.fail(e, "slicing a value of type %s", a.typ)
+			}
+			return a
 		}
 		a := x.expr(t.X)
 		if !(a.typ == "string" || a.typ == "bytes" || strings.HasPrefix(a.typ, "[]")) {
@@ -1437,6 +1458,37 @@ func (x *xl) callExpr(c *ast.CallExpr) (tx, bool) {
 		}
 		addArgs()
 		x.addrOf = nil
+		// the written argument may be a field of a LOCAL record (addFields(clone.enc, fields)): the intrinsic's result goes
+		// to a fresh local and the record is rebuilt with that field replaced
+		if tsel, ok := target.(*ast.SelectorExpr); ok {
+			if id, ok := tsel.X.(*ast.Ident); ok {
+				if v, ok := x.lookup(id.Name); ok && (strings.HasPrefix(v.typ, "struct:") || strings.HasPrefix(v.typ, "ptr:struct:")) {
+					decl := x.fn.structs[v.typ[strings.Index(v.typ, "struct:")+7:]]
+					tmp := fmt.Sprintf("l%d", x.nloc)
+					x.nloc++
+					x.legend = append(x.legend, tmp+" = (new value of "+exprString(target)+")")
+					var parts []string
+					found := false
+					for i, f := range decl {
+						if f.lean == tsel.Sel.Name {
+							found = true
+							parts = append(parts, "(.loc "+leanStr(tmp)+")")
+						} else {
+							parts = append(parts, fmt.Sprintf("(.index (.loc %s) (.lit (.int %d)))", leanStr(v.lean), i))
+						}
+					}
+					if !found {
+						x.fail(c, "field %s of %s is not declared in the whitelist entry", tsel.Sel.Name, v.typ)
+					}
+					pc := &tcall{ctor: "callX", f: sh.f, args: args, res: sh.res, pre: []string{"(.loc " + leanStr(tmp) + ")"}}
+					pc.after = []string{"(.assign [(.loc " + leanStr(v.lean) + ")] [(.call \"tuple\" [" + strings.Join(parts, ", ") + "])])"}
+					pendingCall = pc
+					x.addTrace(c, sh, key, args)
+					pendingCall.pureTrace = false
+					return tx{}, true
+				}
+			}
+		}
 		lv, _ := x.lvalue(target)
 		pendingCall = &tcall{ctor: "callX", f: sh.f, args: args, res: sh.res, pre: []string{lv}}
 		x.addTrace(c, sh, key, args)
@@ -1590,6 +1642,14 @@ func (x *xl) callExpr(c *ast.CallExpr) (tx, bool) {
 			x.fail(c, "translated function %s must be called on the receiver itself", key)
 		}
 		addArgs()
+		// a callee with a variadic parameter (shim.vari = its 1-based position): the arguments from there on ARE the slice
+		// (unless the call spreads one: f(xs...))
+		if sh.vari > 0 && !c.Ellipsis.IsValid() {
+			if len(args) < sh.vari-1 {
+				x.fail(c, "too few arguments for the variadic callee %s", key)
+			}
+			args = append(append([]string{}, args[:sh.vari-1]...), "(.call \"tuple\" ["+strings.Join(args[sh.vari-1:], ", ")+"])")
+		}
 		pendingCall = &tcall{ctor: "call", f: sh.f, args: args, res: sh.res, pureFun: sh.kind == "funpure"}
 		if sh.kind == "funpure" {
 			// the claim is checked on the callee's generated body when the table is assembled
@@ -1784,9 +1844,23 @@ func (x *xl) appendCall(c *ast.CallExpr) tx {
 	}
 	s := x.expr(c.Args[0])
 	if x.fn.noFieldAppend {
-		if sel, ok := c.Args[0].(*ast.SelectorExpr); ok {
+		// the slice appended to, under any re-slicing: a field of the receiver (or of a struct copy of it) may share its
+		// backing array with other objects — unless the outermost form is the full-capacity idiom f[:len(f):len(f)]
+		base := unparen(c.Args[0])
+		capped := false
+		if se, ok := base.(*ast.SliceExpr); ok && isCappedSlice(se) {
+			capped = true
+		}
+		for {
+			se, ok := base.(*ast.SliceExpr)
+			if !ok {
+				break
+			}
+			base = unparen(se.X)
+		}
+		if sel, ok := base.(*ast.SelectorExpr); ok && !capped {
 			if id, ok := sel.X.(*ast.Ident); ok && (id.Name == x.recvVar || id.Name == x.otherVar) {
-				x.fail(c, "append to %s: a slice field of the receiver (or of a struct copy of it) may share its backing array with other objects; use make + copy", exprString(c.Args[0]))
+				x.fail(c, "append to %s: a slice field of the receiver (or of a struct copy of it) may share its backing array with other objects; use make + copy or cap it (f[:len(f):len(f)])", exprString(c.Args[0]))
 			}
 		}
 	}
@@ -1926,6 +2000,15 @@ func (x *xl) hoistCall(t *ast.CallExpr, conditional, first bool, out *[]string) 
 	*out = append(*out, x.emitCall(t, pc, []string{"(.loc " + leanStr(tmp.lean) + ")"}, []string{tmp.typ}))
 }
 
+// isCappedSlice: x[:len(x):len(x)]
+func isCappedSlice(t *ast.SliceExpr) bool {
+	if !t.Slice3 || t.Low != nil || t.High == nil || t.Max == nil {
+		return false
+	}
+	want := "len(" + exprString(t.X) + ")"
+	return exprString(t.High) == want && exprString(t.Max) == want
+}
+
 func unparen(e ast.Expr) ast.Expr {
 	for {
 		p, ok := e.(*ast.ParenExpr)
@@ -2047,6 +2130,10 @@ func (x *xl) coerce(n ast.Node, v tx, typ string) tx {
 	}
 	v = x.constTo(n, v, typ)
 	if v.typ != typ {
+		// a concrete value used as an interface the entry says it implements: the non-nil interface value [v]
+		if to, ok := x.fn.implements[v.typ]; ok && to == typ && strings.HasPrefix(typ, "opt:") {
+			return tx{lean: "(.call \"tuple\" [" + v.lean + "])", typ: typ}
+		}
 		x.fail(n, "value of type %s assigned to %s", v.typ, typ)
 	}
 	return v
@@ -2068,6 +2155,9 @@ func (x *xl) stmt1(s ast.Stmt) string {
 		c, ok := t.X.(*ast.CallExpr)
 		if !ok {
 			x.fail(s, "expression statement %s", exprString(t.X))
+		}
+		if r, ok := x.onceDo(c); ok {
+			return r
 		}
 		_, isStmt := x.callExpr(c)
 		if !isStmt {
@@ -2169,6 +2259,44 @@ func (x *xl) stmt1(s ast.Stmt) string {
 	}
 	x.fail(s, "statement kind %T is outside the subset", s)
 	return ""
+}
+
+// onceDo: `recv.Once.Do(func() { … })` (shim kind "once", flds[0] = the mapped boolean field "the Once has fired"):
+// if it has not fired, the body runs — inlined, it sees the receiver like the method does — and the flag is set; otherwise
+// nothing happens.  (sync.Once also serialises concurrent callers; the sequential meaning is what is translated.)
+func (x *xl) onceDo(c *ast.CallExpr) (string, bool) {
+	sel, ok := c.Fun.(*ast.SelectorExpr)
+	if !ok || len(c.Args) != 1 {
+		return "", false
+	}
+	key := exprString(c.Fun)
+	if id0 := rootIdent(sel.X); id0 == x.recvVar && x.recvVar != "" {
+		key = "recv" + strings.TrimPrefix(key, x.recvVar)
+	} else {
+		return "", false
+	}
+	sh, has := x.fn.calls[key]
+	if !has || sh.kind != "once" {
+		return "", false
+	}
+	fl, isLit := c.Args[0].(*ast.FuncLit)
+	if !isLit || len(fl.Type.Params.List) != 0 || (fl.Type.Results != nil && len(fl.Type.Results.List) != 0) || len(sh.flds) != 1 {
+		x.fail(c, "shim once: %s must be handed a literal func() { … }", key)
+	}
+	fs, ok := x.fn.fields[sh.flds[0]]
+	if !ok || fs.typ != "bool" {
+		x.fail(c, "shim once names the unmapped (or non-boolean) field %s", sh.flds[0])
+	}
+	for _, st := range fl.Body.List {
+		ast.Inspect(st, func(n ast.Node) bool {
+			if _, isRet := n.(*ast.ReturnStmt); isRet {
+				x.fail(c, "return inside a Once body is outside the subset")
+			}
+			return true
+		})
+	}
+	body := x.scoped(fl.Body)
+	return "(.ite (.un .not (.fld " + leanStr(fs.lean) + "))\n  " + indent(block([]string{body, "(.assign [(.fld " + leanStr(fs.lean) + ")] [(.lit (.bool true))])"}), 2) + "\n  .skip)", true
 }
 
 func (x *xl) emitCall(n ast.Node, pc *tcall, lvs []string, ltyps []string) string {
